@@ -251,6 +251,126 @@ add('RfeT2', {'increment': '1', 'word_higher': '0', 'wback': 'b21', 'n': 'f19_16
 # UNPREDICTABLE operand combinations leave the behaviour open, so nothing is expected of them; what is checked is the converse:
 # operand values that ARE architecturally valid must be accepted.  VALID[class] = list of (register field, value) that the
 # encoding allows (the other register fields stay inside r0-r12).
+
+# ================================================================== further encodings (session 4)
+# Unused operands of an encoding (e.g. m / shift of an immediate form) are compared against the constructor defaults (0, LSL #0).
+LSL0 = {'shift_t': str(SR_LSL), 'shift_n': '0'}
+
+# ------------------------------------------------------------------ PUSH / POP (A8.8.131-133)
+add('PushT1', {'registers': '(bit W 8 * 2 ^ 14 + bits W 7 0)', 'unaligned_allowed': '0', '_pre': 'list8_nz'}, [], 16)
+add('PopThumbT1', {'registers': '(bit W 8 * 2 ^ 15 + bits W 7 0)', 'unaligned_allowed': '0', '_pre': 'list8_nz', '_noit': True}, [], 16)
+add('PushT2', {'registers': '(bit W 14 * 2 ^ 14 + bits W 12 0)', 'unaligned_allowed': '0', '_pre': 'list13_2', '_zero': [13, 15]}, [])
+add('PopThumbT2', {'registers': '(bits W 15 14 * 2 ^ 14 + bits W 12 0)', 'unaligned_allowed': '0', '_pre': 'list13_2pm', '_zero': [13],
+                   '_noit': True}, [])
+add('PushT3 PushA2 PopThumbT3 PopArmA2', {'registers': '(2 ^ bits W 15 12)', 'unaligned_allowed': '1', '_noit': True}, [RD])
+add('PushA1', {'registers': 'f15_0', 'unaligned_allowed': '0', '_pre': 'list16_2'}, [])
+add('PopArmA1', {'registers': 'f15_0', 'unaligned_allowed': '0', '_pre': 'list16_2', '_zero': [13]}, [])
+add('LdmThumbT1', {'wback': '(if bit W (bits W 10 8) =? 0 then 1 else 0)', 'registers': 'f7_0', 'n': 'f10_8', '_pre': 'list8_nz'}, [], 16)
+add('StmT1', {'wback': '1', 'registers': 'f7_0', 'n': 'f10_8', '_pre': 'list8_nz'}, [], 16)
+
+# ------------------------------------------------------------------ unprivileged loads and stores (A8.8.64, 92, 219 ...)
+UNP_S_A1 = dict({'add': 'b23', 'register_form': '0', 'post_index': '1', 't': 'f15_12', 'n': 'f19_16', 'm': '0', 'imm32': 'f11_0'}, **LSL0)
+UNP_S_A2 = {'add': 'b23', 'register_form': '1', 'post_index': '1', 't': 'f15_12', 'n': 'f19_16', 'm': 'f3_0', 'shift_t': 'shA_t',
+            'shift_n': 'shA_n', 'imm32': '0'}
+UNP_S_T1 = dict({'add': '1', 'register_form': '0', 'post_index': '0', 't': 'f15_12', 'n': 'f19_16', 'm': '0', 'imm32': 'f7_0'}, **LSL0)
+add('LdrtA1 LdrbtA1 StrtA1 StrbtA1', UNP_S_A1, [RN, RD])
+add('LdrtA2 LdrbtA2 StrtA2 StrbtA2', UNP_S_A2, [RN, RD, RM])
+add('LdrtT1 LdrbtT1 StrtT1 StrbtT1', UNP_S_T1, [T_RN, RD])
+UNP_A1 = {'add': 'b23', 'register_form': '0', 'post_index': '1', 't': 'f15_12', 'n': 'f19_16', 'm': '0', 'imm32': IMM8}
+UNP_A2 = {'add': 'b23', 'register_form': '1', 'post_index': '1', 't': 'f15_12', 'n': 'f19_16', 'm': 'f3_0', 'imm32': '0'}
+UNP_T1 = {'add': '1', 'register_form': '0', 'post_index': '0', 't': 'f15_12', 'n': 'f19_16', 'm': '0', 'imm32': 'f7_0'}
+add('LdrhtA1 LdrsbtA1 LdrshtA1 StrhtA1', UNP_A1, [RN, RD])
+add('LdrhtA2 LdrsbtA2 LdrshtA2 StrhtA2', UNP_A2, [RN, RD, RM])
+add('LdrhtT1 LdrsbtT1 LdrshtT1 StrhtT1', UNP_T1, [T_RN, RD])
+
+# ------------------------------------------------------------------ SP-relative ADD / SUB, ADR (A8.8.9-12, 225-227)
+add('AddSpPlusImmediateA1 SubSpMinusImmediateA1', {'setflags': 'b20', 'd': 'f15_12', 'imm32': 'armimm'}, [RD])
+add('AddSpPlusImmediateT3 SubSpMinusImmediateT2', {'setflags': 'b20', 'd': 'f11_8', 'imm32': 'timm'}, [T_RD])
+add('AddSpPlusImmediateT4 SubSpMinusImmediateT3', {'setflags': '0', 'd': 'f11_8', 'imm32': IMM12T}, [T_RD])
+add('AddSpPlusRegisterArmA1 SubSpMinusRegisterA1', {'setflags': 'b20', 'm': 'f3_0', 'd': 'f15_12', 'shift_t': 'shA_t', 'shift_n': 'shA_n'}, [RD, RM])
+add('AddSpPlusRegisterThumbT3 SubSpMinusRegisterT1', {'setflags': 'b20', 'm': 'f3_0', 'd': 'f11_8', 'shift_t': 'shT_t', 'shift_n': 'shT_n'},
+    [T_RD, T_RM])
+DM = '(bit W 7 * 8 + bits W 2 0)'
+add('AddSpPlusRegisterThumbT1', dict({'setflags': '0', 'm': DM, 'd': DM, '_pre': 'dm_low'}, **LSL0), [], 16)
+add('AddSpPlusRegisterThumbT2', dict({'setflags': '0', 'm': 'f6_3', 'd': '13', '_pre': 'rm63_low'}, **LSL0), [], 16)
+add('AdrA1', {'add': '1', 'd': 'f15_12', 'imm32': 'armimm'}, [RD])
+add('AdrA2', {'add': '0', 'd': 'f15_12', 'imm32': 'armimm'}, [RD])
+add('AdrT2', {'add': '0', 'd': 'f11_8', 'imm32': IMM12T}, [T_RD])
+add('AdrT3', {'add': '1', 'd': 'f11_8', 'imm32': IMM12T}, [T_RD])
+add('AddRegisterThumbT2', dict({'setflags': '0', 'm': 'f6_3', 'd': DM, 'n': DM, '_pre': 'add_t2'}, **LSL0), [], 16)
+add('CmpRegisterT2', dict({'m': 'f6_3', 'n': DM, '_pre': 'cmp_t2'}, **LSL0), [], 16)
+add('MovRegisterThumbT1', {'setflags': '0', 'm': 'f6_3', 'd': DM, '_pre': 'mov_t1'}, [], 16)
+add('MovRegisterThumbT2', {'setflags': '1', 'm': 'f5_3', 'd': 'f2_0', '_noit': True}, [], 16)
+add('MovImmediateA2', {'setflags': '0', 'd': 'f15_12', 'imm32': '(bits W 19 16 * 2 ^ 12 + bits W 11 0)', 'carry': '0'}, [RD])
+add('MovImmediateT3', {'setflags': '0', 'd': 'f11_8', 'imm32': '(bits W 19 16 * 2 ^ 12 + ' + IMM12T + ')', 'carry': '0'}, [T_RD])
+
+# ------------------------------------------------------------------ LDRD / STRD (A8.8.72-74, 210-211), exclusives (A8.8.76-78, 213-215)
+PW = '(if (bit W 24 =? 0) || (bit W 21 =? 1) then 1 else 0)'
+add('LdrdImmediateT1 StrdImmediateT1', {'add': 'b23', 'wback': 'b21', 'index': 'b24', 'imm32': '(bits W 7 0 * 4)', 't': 'f15_12', 't2': 'f11_8',
+                                        'n': 'f19_16', '_pre': 'pw_t'}, [T_RN, RD, T_RD])
+add('LdrdImmediateA1 StrdImmediateA1', {'add': 'b23', 'wback': PW, 'index': 'b24', 'imm32': IMM8, 't': 'f15_12', 't2': '(bits W 15 12 + 1)',
+                                        'n': 'f19_16', '_pre': 'dual_a'}, [])
+add('LdrdRegisterA1 StrdRegisterA1', {'add': 'b23', 'wback': PW, 'index': 'b24', 'm': 'f3_0', 't': 'f15_12', 't2': '(bits W 15 12 + 1)',
+                                      'n': 'f19_16', '_pre': 'dual_a'}, [])
+add('LdrdLiteralT1', {'add': 'b23', 'imm32': '(bits W 7 0 * 4)', 't': 'f15_12', 't2': 'f11_8', '_pre': 'pw_lit_t'}, [RD, T_RD])
+add('LdrdLiteralA1', {'add': 'b23', 'imm32': IMM8, 't': 'f15_12', 't2': '(bits W 15 12 + 1)', '_pre': 'dual_lit_a'}, [])
+add('LdrexbT1 LdrexhT1', {'t': 'f15_12', 'n': 'f19_16', '_one': [0, 1, 2, 3, 8, 9, 10, 11]}, [T_RN, RD])
+add('LdrexdT1', {'t': 'f15_12', 't2': 'f11_8', 'n': 'f19_16', '_one': [0, 1, 2, 3]}, [T_RN, RD, T_RD])
+add('LdrexdA1', {'t': 'f15_12', 't2': '(bits W 15 12 + 1)', 'n': 'f19_16', '_one': [0, 1, 2, 3, 8, 9, 10, 11], '_pre': 'dual_ex_a'}, [])
+add('StrexbT1 StrexhT1', {'t': 'f15_12', 'd': 'f3_0', 'n': 'f19_16', '_one': [8, 9, 10, 11]}, [T_RN, RD, RM])
+add('StrexdT1', {'t': 'f15_12', 't2': 'f11_8', 'd': 'f3_0', 'n': 'f19_16'}, [T_RN, RD, T_RD, RM])
+add('StrexdA1', {'t': 'f3_0', 't2': '(bits W 3 0 + 1)', 'd': 'f15_12', 'n': 'f19_16', '_one': [8, 9, 10, 11], '_pre': 'strexd_a'}, [])
+
+# ------------------------------------------------------------------ status-register access, CPS, hints, barriers (B9.3, A8.8)
+add('MrsApplicationT1', {'d': 'f11_8', '_noit': False}, [T_RD])
+add('MrsSystemT1', {'read_spsr': 'b20', 'd': 'f11_8'}, [T_RD])
+add('MrsSystemA1', {'read_spsr': 'b22', 'd': 'f15_12'}, [RD])
+add('MsrImmediateApplicationA1', {'write_nzcvq': 'b19', 'write_g': 'b18', 'imm32': 'armimm', '_pre': 'msr_app'}, [])
+add('MsrRegisterApplicationA1', {'write_nzcvq': 'b19', 'write_g': 'b18', 'n': 'f3_0', '_pre': 'msr_app'}, [RM])
+add('MsrRegisterApplicationT1', {'write_nzcvq': 'b11', 'write_g': 'b10', 'n': 'f19_16', '_pre': 'msr_app_t'}, [T_RN])
+add('MsrImmediateSystemA1', {'write_spsr': 'b22', 'mask': 'f19_16', 'imm32': 'armimm', '_pre': 'msr_sys'}, [])
+add('MsrRegisterSystemA1', {'write_spsr': 'b22', 'mask': 'f19_16', 'n': 'f3_0', '_pre': 'msr_sys'}, [RM])
+add('MsrRegisterSystemT1', {'write_spsr': 'b20', 'mask': 'f11_8', 'n': 'f19_16', '_pre': 'msr_sys_t'}, [T_RN])
+CPS_EN = '(if bits W {h} {l} =? 2 then 1 else 0)'
+CPS_DIS = '(if bits W {h} {l} =? 3 then 1 else 0)'
+add('CpsArmA1', {'affect_a': 'b8', 'affect_i': 'b7', 'affect_f': 'b6', 'enable': CPS_EN.format(h=19, l=18), 'disable': CPS_DIS.format(h=19, l=18),
+                 'change_mode': 'b17', 'mode': 'f4_0', '_pre': 'cps_a'}, [])
+add('CpsThumbT2', {'affect_a': 'b7', 'affect_i': 'b6', 'affect_f': 'b5', 'enable': CPS_EN.format(h=10, l=9), 'disable': CPS_DIS.format(h=10, l=9),
+                   'change_mode': 'b8', 'mode': 'f4_0', '_pre': 'cps_t2', '_noit': True}, [])
+add('CpsThumbT1', {'affect_a': 'b2', 'affect_i': 'b1', 'affect_f': 'b0', 'enable': '(1 - bit W 4)', 'disable': 'b4', 'change_mode': '0',
+                   'mode': '0', '_pre': 'cps_t1', '_noit': True}, [], 16)
+add('DsbA1 DsbT1', {'option': 'f3_0'}, [])
+add('EnterxLeavexT1', {'is_enterx': 'b4'}, [])
+add('SubsPcLrThumbT1', {'imm32': 'f7_0', 'n': '14', '_noit': True}, [])
+add('SubsPcLrArmA1', dict({'register_form': '0', 'n': 'f19_16', 'opcode': 'f24_21', 'm': '0', 'imm32': 'armimm'}, **LSL0), [RN])
+add('SubsPcLrArmA2', {'register_form': '1', 'n': 'f19_16', 'opcode': 'f24_21', 'm': 'f3_0', 'shift_t': 'shA_t', 'shift_n': 'shA_n', 'imm32': '0'},
+    [RN, RM])
+
+# ------------------------------------------------------------------ preloads (A8.8.126-128)
+NOTR = '(1 - bit W 22)'
+add('PldImmediateA1', {'add': 'b23', 'is_pldw': NOTR, 'n': 'f19_16', 'imm32': 'f11_0'}, [RN])
+add('PldImmediateT1', {'add': '1', 'is_pldw': 'b21', 'n': 'f19_16', 'imm32': 'f11_0'}, [T_RN])
+add('PldImmediateT2', {'add': '0', 'is_pldw': 'b21', 'n': 'f19_16', 'imm32': 'f7_0'}, [T_RN])
+add('PldLiteralA1 PldLiteralT1', {'add': 'b23', 'imm32': 'f11_0'}, [])
+add('PldRegisterA1', {'add': 'b23', 'is_pldw': NOTR, 'm': 'f3_0', 'n': 'f19_16', 'shift_t': 'shA_t', 'shift_n': 'shA_n'}, [RN, RM])
+add('PldRegisterT1', {'add': '1', 'is_pldw': 'b21', 'm': 'f3_0', 'n': 'f19_16', 'shift_t': str(SR_LSL), 'shift_n': 'f5_4'}, [T_RN, T_RM])
+
+# ------------------------------------------------------------------ coprocessor (A8.8.29, 51-53, 98-103, 198): the same bit positions in both sets
+add(ops('CdpCdp2', 'A1') + ' ' + ops('CdpCdp2', 'A2') + ' ' + ops('CdpCdp2', 'T1') + ' ' + ops('CdpCdp2', 'T2'), {'cp': 'f11_8', '_pre': 'cp_ok'}, [])
+add('McrMcr2A1 McrMcr2A2 McrMcr2T1 McrMcr2T2 MrcMrc2A1 MrcMrc2A2 MrcMrc2T1 MrcMrc2T2', {'cp': 'f11_8', 't': 'f15_12', '_pre': 'cp_ok'}, [RD])
+add('McrrMcrr2A1 McrrMcrr2A2 McrrMcrr2T1 McrrMcrr2T2 MrrcMrrc2A1 MrrcMrrc2A2 MrrcMrrc2T1 MrrcMrrc2T2',
+    {'cp': 'f11_8', 't': 'f15_12', 't2': 'f19_16', '_pre': 'cp_ok'}, [RN, RD])
+LDC = {'cp': 'f11_8', 'n': 'f19_16', 'add': 'b23', 'imm32': '(bits W 7 0 * 4)', 'index': 'b24', 'wback': 'b21', '_pre': 'ldc'}
+add('LdcLdc2ImmediateA1 LdcLdc2ImmediateA2 LdcLdc2ImmediateT1 LdcLdc2ImmediateT2 StcStc2A1 StcStc2A2 StcStc2T1 StcStc2T2', LDC, [RN])
+add('LdcLdc2LiteralA1 LdcLdc2LiteralA2 LdcLdc2LiteralT1 LdcLdc2LiteralT2',
+    {'cp': 'f11_8', 'add': 'b23', 'imm32': '(bits W 7 0 * 4)', 'index': 'b24', '_pre': 'ldc_lit'}, [])
+
+# ------------------------------------------------------------------ operand-less encodings
+add('BkptA1', {'_one': [31, 30, 29], '_zero': [28]}, [])      # cond != 1110 is UNPREDICTABLE
+add('ClrexA1 ClrexT1 IsbA1 IsbT1 NopA1 NopT2 SevA1 SevT2 WfeA1 WfeT2 WfiA1 WfiT2 YieldA1 YieldT2 UdfA1 UdfT2 SmcA1 SmcT1 EretT1',
+    {'_noit': True}, [])
+add('BkptT1 NopT1 SevT1 WfeT1 WfiT1 YieldT1 UdfT1', {'_noit': True}, [], 16)
+
 VALID = {}
 
 
